@@ -51,7 +51,7 @@ THEOREMS = [
         "fsolve_full_solves fsolve_full_va rfBlock_solves rbBlock_solves elBlockUnc_solves elBlockCoup_solves "
         "fdBlock_solves fd_incrb_rows colFD_solves colSU_solves "
         # Props/C02g: solvepsd uncertainty factors
-        "applyUf_rows frfRec_with_uf solvePsd_with_uf "
+        "applyUf_rows frfRec_with_uf solvePsd_with_uf preEig_solves "
         # Props/C02i: incrb / rf_disp_only at the level of the whole column
         "rfVals_options rfVals_length rbAcc_length rbVals_options elValsCoup_length elValsSU_rows "
         "colSU_options colFD_options"
@@ -101,8 +101,10 @@ PARTIAL = (
     "relations of frfCoupled_solves: A U = U Lambda in partitioned form and the U^-1 partitions; residuals measured per "
     "case, not proved); the full-size equation (colSU_solves / colFD_solves) is stated for incrb = 'dva', rf_disp_only = "
     "False, W != 0, and every other option value / W = 0 is related to that column entry by entry (colSU_options, "
-    "colFD_options, frfRb_zero_freq) rather than by a separate full-size equation; the loop over frequencies and the pre_eig "
-    "transforms phi^T F, phi d are tied by correspondence only; floating-point accuracy is measured, not proved"
+    "colFD_options, frfRb_zero_freq) rather than by a separate full-size equation; the pre_eig path rests on the eigh "
+    "specification (preEig_solves assumes phi^T M phi = Mm etc. and det phi != 0; residual measured per case); the "
+    "array plumbing of the whole call (loop over the frequencies, Array/List conversions, phi^T F and phi d as "
+    "executed) is tied by correspondence only; floating-point accuracy is measured, not proved"
 )
 MANIFEST = {
     "level_text": "Proof (Lean 4, kernel-checked, standard axioms only) about the definitions the driver executes, over any "
